@@ -107,6 +107,21 @@ def _flow2(chk):
                             rem = _removes_queue(f.node, s.id)
                             verdict = bool(rem)
                             why = "forwards a dict derived from **%s without removing `queue`" % kw
+                elif isinstance(s, ast.Attribute) and dotted(s.value) == "self" and u.cls is not None:
+                    # a field of the object: tainted when any method stores its own **kwargs (or an unfiltered copy) there
+                    tainted_by = []
+                    cls_obj = repo.modules[u.relpath].classes.get(u.cls) if isinstance(u.cls, str) else u.cls
+                    for m_ in (cls_obj.methods.values() if cls_obj is not None else []):
+                        mk = m_.vararg_kw
+                        if not mk:
+                            continue
+                        for a_ in walk_local(m_.node):
+                            if isinstance(a_, ast.Assign) and any(src(t) == src(s) for t in a_.targets) and \
+                                    any(isinstance(x, ast.Name) and x.id == mk for x in ast.walk(a_.value)) and not _filters_queue(a_.value):
+                                tainted_by.append(m_.qualname)
+                    if tainted_by:
+                        verdict = False
+                        why = "forwards %s, which %s fills with its own **kwargs (may contain an outer `queue`)" % (src(s), ", ".join(sorted(set(tainted_by))))
                 elif kw and any(isinstance(x, ast.Name) and x.id == kw for x in ast.walk(s)) and not _filters_queue(s):
                     verdict = False
                     why = "forwards an expression over **%s without removing `queue`" % kw
@@ -181,6 +196,12 @@ def _dom4(chk):
         wf = [k for k, v in facts.items() if k.endswith(".waiter") and v is True]
         chk.ob("DOM-4", "the await happens iff the handler registered a wait", bool(wf), f.where(a.ast),
                detail="facts %s" % sorted(facts.items()), construct=f.ident, text="await guard")
+        from sa.cfg import canon_set
+        loop_guards = {k: v for k, v in cfg.guards_at(a.id).items() if any(x is t.ast for t in cfg.nodes if t.kind == "test" and src(t.ast) == k
+                                                                           for st in head.ast.body for x in ast.walk(st))}
+        others = {kv for kv in canon_set(loop_guards) if not kv[0].endswith(".waiter")}
+        chk.ob("DOM-4", "nothing but the registered wait decides whether the dispatcher waits (not the callback, not the event)", not others,
+               f.where(a.ast), detail="additional conditions on the wait: %s" % sorted(others), construct=f.ident, text="extra condition on the wait")
         # a fresh asyncio.Event is installed before awaiting
         ev_sets = [n for n in cfg.nodes_where(lambda n: n.kind == "stmt" and isinstance(n.ast, ast.Assign) and
                                               any(src(t).endswith(".event") for t in n.ast.targets) and
@@ -655,6 +676,8 @@ def battery():
         M("twin: pop queue before forwarding", "mpf/core/mode.py", "        starting_kwargs = {key: value for key, value in kwargs.items() if key != 'queue'}", "        starting_kwargs = dict(kwargs)\n        starting_kwargs.pop('queue', None)", None),
         M("twin: waiter test via local", E, "            if queue.waiter:\n                queue.event = asyncio.Event()\n                await queue.event.wait()", "            if queue.waiter:\n                queue.event = asyncio.Event()\n                released = queue.event\n                await queue.event.wait()", None),
         M("twin: reordered independent stmts", G, "        self._stopping_modes.remove(mode)\n        if not self._stopping_modes:\n            self._stopping_queue.clear()\n            self._stopping_queue = None", "        self._stopping_modes.remove(mode)\n        if not self._stopping_modes:\n            q = self._stopping_queue\n            self._stopping_queue.clear()\n            self._stopping_queue = None", None),
+        M("wait ignored when the event has no callback", EV, "            if queue.waiter:\n                queue.event = asyncio.Event()", "            if queue.waiter and callback:\n                queue.event = asyncio.Event()", "DOM-4"),
+        M("starting event re-posted with the stored start kwargs", "mpf/core/mode.py", "callback=self._started, **starting_kwargs)", "callback=self._started, **self.start_event_kwargs)", "FLOW-2"),
     ]
 
 
